@@ -50,6 +50,7 @@ class ProfileMachine(Machine):
                 'unit': rng.chance(0.2), 'nan': rng.chance(0.25),
                 'nan_error': rng.chance(0.25),
                 'subpixels': rng.pick([1, 3, 3, 5]),
+                'arg_repr': rng.pick(['plain', 'plain', 'list', 'array']),
                 'int_data': rng.chance(0.15), 'int_error': rng.chance(0.1),
                 'int_mask': rng.chance(0.15),
                 'center': rng.pick(['in', 'in', 'in', 'edge', 'out'])}
@@ -127,7 +128,11 @@ class ProfileMachine(Machine):
             data = data * u.Jy
             err = err * u.Jy if err is not None else None
         cls = RadialProfile if self.variant == 'radial' else CurveOfGrowth
-        return cls(data, tuple(sc['xycen']), np.array(sc['radii']),
+        rep = cfg.get('arg_repr', 'plain')
+        xy = (tuple(sc['xycen']) if rep == 'plain' else
+              list(sc['xycen']) if rep == 'list' else np.array(sc['xycen']))
+        rad = (np.array(sc['radii']) if rep != 'list' else list(sc['radii']))
+        return cls(data, xy, rad,
                    error=err,
                    mask=(dec(sc['mask']).astype(
                        np.uint8 if cfg.get('int_mask') else bool)
